@@ -258,6 +258,58 @@ def gen_malformed_case(rng):
     return c
 
 
+def short_words(rng, n=None):
+    return " ".join(gen_word(rng, rng.randint(1, 6)) for _ in range(n if n is not None else rng.randint(2, 8)))
+
+
+def long_then_short(rng, at_least):
+    """text with an unbreakable word (at least `at_least` bytes) FOLLOWED by several short words"""
+    long_w = gen_word(rng, at_least + rng.choice([0, 0, 1, 2, 10, 40]))
+    head = "" if rng.random() < 0.3 else short_words(rng, rng.randint(1, 5)) + " "
+    second = "" if rng.random() < 0.8 else " " + gen_word(rng, at_least + rng.randint(0, 5))   # two unbreakable words in a row
+    return head + long_w + second + " " + short_words(rng, rng.randint(2, 9))
+
+
+def gen_longword_case(rng):
+    """usage-level cases aimed at the strict width rule: an unbreakable word (>= 40 bytes behind the option column,
+    >= 80 - 8 - |app| in the synopsis) followed by several short words, in descriptions, defaults and the synopsis"""
+    used = set()
+    napp = rng.choice([4, 20, 40, 50, 60, 65])
+    app = "".join(rng.choice(LETTERS) for _ in range(napp))
+    room = 72 - napp
+    opts = []
+    # synopsis: an entry that is unbreakable there, sorted before short entries (options come in name order)
+    long_name = "a" + "".join(rng.choice(NAMECH) for _ in range(max(1, min(29, room - 6 + rng.randint(0, 4)))))
+    used.add(long_name)
+    kind = rng.choice("om")
+    opts.append(dict(kind=kind, group=0, name=long_name, short=None, descr=long_then_short(rng, 40), env="",
+                     metavar="M" * max(1, room - len(long_name) - 6 + rng.randint(0, 3)) if rng.random() < 0.5 else "ARG",
+                     flag=False, rank=None, default=None))
+    for i in range(rng.randint(2, 4)):
+        k = rng.choice("omt")
+        name = "z" + gen_name(rng, used)[:3] + str(i)
+        used.add(name)
+        o = dict(kind=k, group=0, name=name, short=rng.choice([None, "x", "y"]), descr=long_then_short(rng, 40) if rng.random() < 0.6 else short_words(rng),
+                 env=rng.choice(["", "E"]), metavar=rng.choice(["ARG", "N"]), flag=rng.random() < 0.5, rank=None)
+        if k == "o":
+            o["default"] = rng.choice([None, long_then_short(rng, 40), gen_word(rng, 45) + " a b c"])
+        elif k == "m":
+            o["default"] = rng.choice([None, [gen_word(rng, 45), "a", "b", "c"], [long_then_short(rng, 40), "z"]])
+        else:
+            o["default"] = rng.random() < 0.5
+        opts.append(o)
+    rerank(opts, rng)
+    return dict(app=app, about="", defname="arguments", pos=rng.random() < 0.6, posname=rng.choice(["args", "a b c"]),
+                prior="" if rng.random() < 0.5 else "xyz", groups=[], opts=opts)
+
+
+def gen_fp_longword_case(rng):
+    lp = rng.choice([0, 1, 8, 12, 40, 40, rng.randint(0, 60)])
+    mw = lp + rng.choice([1, 2, 5, 12, 40, 40])
+    indent = rng.choice([0, lp, max(0, lp - 1), lp + 1, lp + 30, rng.randint(0, lp + 1)])
+    return "F %d %d %d %s" % (indent, lp, mw, hx(long_then_short(rng, mw - lp)))
+
+
 def small_usage_cases():
     """every shape of a single declaration: kind x letter x flag x default x env x description"""
     descrs = ["", "d", "some words that are long enough to be wrapped once behind column forty of the text"]
@@ -337,13 +389,14 @@ class C15(Check):
     technique = ("Coq proof over an executable model of parser::usage / group::usage / base::format / format_padded "
                  "(induction on the word list with the wrapping invariant; token algebra for content and order) + "
                  "extraction-based differential test against the C++ on four kinds of target stream")
-    level_text = ("Eighteen theorems proved in Coq for ALL declarations, all texts/columns/widths and all orders of the long toggles, over a "
+    level_text = ("Twenty-one theorems proved in Coq for ALL declarations, all texts/columns/widths and all orders of the long toggles, over a "
                   "Gallina model that follows parser::usage, group::usage, base::format, the three format_* families and format_padded "
                   "statement by statement: the text is no function of the target stream (and the pre-repair head line was); groups in "
                   "creation order, blocks in declaration order, an empty group prints nothing; the layout-free token sequence of the whole "
                   "text equals synopsis entries ++ about ++ per group (name, description, per option: spelling, placeholder, description, "
                   "environment hint iff declared, default iff declared) - nothing lost, doubled or reordered; the synopsis mentions every "
-                  "declaration; format_padded emits the words in order separated only by layout; the width rule for format_padded "
+                  "declaration; format_padded emits the words in order separated only by layout; the STRICT width rule (every line is a beginning of at "
+                  "most max_width columns followed by nothing but unbreakable words, so an over-wide line ends with one) for format_padded "
                   "(both cases of the left column) and for the whole text under the K2 hypothesis (with a refutation without it); the "
                   "oracle's checks accept the model's text on every input; split/replace_all never exhaust their fuel. The model is tied "
                   "to /repo by running the extracted model and the real code (ASan/UBSan build of the working tree) on the same cases and "
@@ -365,7 +418,10 @@ class C15(Check):
             "names 1-30 bytes incl. prefixes of each other and no- names, descriptions of 0-40 words incl. words of 38-41, 71-73, 79-81 "
             "bytes, double/leading/trailing blanks, tabs, rare line breaks, metavars and defaults with blanks, env names, app names of "
             "0-100 bytes, random prior stream content, random address order of the long toggles; random format_padded calls aimed at "
-            "|w|+1 = max_width-left_pad +-1, indent = left_pad +-1, max_width <= left_pad, position -1; (iii) declarations outside the "
+            "|w|+1 = max_width-left_pad +-1, indent = left_pad +-1, max_width <= left_pad, position -1; usage-level and "
+            "format_padded-level cases with an unbreakable word (>= 40 bytes behind the option column, >= 72-|app| in the synopsis) "
+            "FOLLOWED by several short words, in descriptions, defaults and synopsis entries, incl. two unbreakable words in a row; "
+            "(iii) declarations outside the "
             "model's domain (duplicate names, reserved/duplicate group names, empty metavar, two-byte short name): only 'no crash, no "
             "hang' is compared; (iv) corpus. A usage case is "
             "non-trivial when it declares at least one option, a format_padded case when the output has a line break or more than one "
@@ -395,6 +451,10 @@ class C15(Check):
                 yield line, "usage-k2"
             else:
                 yield line, "usage-rand"
+        for _ in range(600 if tier == "quick" else 10000):
+            yield enc_case(gen_longword_case(rng)), "usage-longword"
+        for _ in range(2000 if tier == "quick" else 40000):
+            yield gen_fp_longword_case(rng), "fp-longword"
         for _ in range(300 if tier == "quick" else 3000):
             line = enc_case(gen_malformed_case(rng))
             if is_malformed(line):
